@@ -3,4 +3,4 @@
 # e.g.   seed_queue.sh /tmp/seed2 "C01 1 3"   verifies /tmp/seed2/C01/out/patch1.diff and files it as seeded/C01-3
 R=$1; shift
 mkdir -p /tmp/seedlogs
-printf '%s\n' "$@" | xargs -P 6 -I{} sh -c 'set -- {}; /verif/tools/verify_seed.py $1 '"$R"'/$1/out $2 --dest $3 ${4:+--checks $4} > /tmp/seedlogs/$1-$3.json 2>&1'
+printf '%s\n' "$@" | xargs -P 3 -I{} sh -c 'set -- {}; /verif/tools/verify_seed.py $1 '"$R"'/$1/out $2 --dest $3 ${4:+--checks $4} > /tmp/seedlogs/$1-$3.json 2>&1'
